@@ -337,6 +337,18 @@ def rule_window(ctx):
                     and l.target.id in [x.id for x in ast.walk(st.targets[0].slice) if isinstance(x, ast.Name)]]
             ctx.check(len(loop) == 1 and ast.unparse(loop[0].iter) in ("range(self.width)", "range(0, self.width)"), R, f, "width", "width entries per window",
                       "the window loop is `%s`" % (ast.unparse(loop[0].iter) if loop else None), st)
+    # the same filling written as a dict comprehension {KEY: dependent_dict[f.name][IDX] for k in range(self.width)}
+    for dc in [x for x in ast.walk(f.node) if isinstance(x, ast.DictComp)]:
+        v = dc.value
+        if isinstance(v, ast.Subscript) and isinstance(v.value, ast.Subscript) and dotted(v.value.value) == "dependent_dict" and len(dc.generators) == 1:
+            n += 1
+            env = Env()
+            key, idx = _sym(dc.key, env), _sym(v.slice, env)
+            ctx.check(idx - key == Poly.atom("idx"), R, f, "entry {%s: %s}" % (ast.unparse(dc.key), ast.unparse(v)), "the entry under key -k is the value k trials before the current one",
+                      "window entry {%s: %s}: key %s is filled from index %s (expected idx + key)" % (ast.unparse(dc.key), ast.unparse(v), key, idx), dc)
+            ctx.check(ast.unparse(v.value.slice) == "f.name" and ast.unparse(dc.generators[0].iter) in ("range(self.width)", "range(0, self.width)") and not dc.generators[0].ifs, R, f,
+                      "width (comprehension)", "width entries per window, read from the window's own factor", "the window comprehension ranges over `%s` of `%s`" % (
+                          ast.unparse(dc.generators[0].iter), ast.unparse(v.value.slice)), dc)
     ctx.require(n == 2, "get_window_val: expected two window-filling statements, found %d" % n)
     t = F.tests()
     ctx.check(t[:2] == ["(idx < self.start)", "(((idx - self.start)%(self.stride) != 0) and (1 < self.stride))"], R, f, "undefined / skipped",
@@ -428,5 +440,5 @@ def check(ctx):
     ctx.min_instances("C22.loop", 8)
     ctx.min_instances("C22.check", 8)
     ctx.min_instances("C22.inputs", 15)
-    ctx.min_instances("C22.window", 8)
+    ctx.min_instances("C22.window", 7)
     ctx.min_instances("C22.merge", 5)
